@@ -1902,10 +1902,8 @@ class LoopExpression(Expression):
         )
 
         match self.offset:
-            case StringLiteral(value=value, token=token):
-                offset: str | int | None = value
-                if offset != "continue":
-                    offset = self._to_int(offset, token=token)
+            case Continue():
+                offset: str | int | None = "continue"
             case None:
                 offset = None
             case _offset:
@@ -1927,10 +1925,8 @@ class LoopExpression(Expression):
 
         if self.offset is None:
             offset: str | int | None = None
-        elif isinstance(self.offset, StringLiteral):
-            offset = self.offset.evaluate(context)
-            if offset != "continue":
-                offset = self._to_int(offset, token=self.offset.token)
+        elif isinstance(self.offset, Continue):
+            offset = "continue"
         else:
             offset = self._to_int(
                 await self.offset.evaluate_async(context), token=self.offset.token
@@ -2018,7 +2014,7 @@ class LoopExpression(Expression):
                             is_token_type(offset_token, TokenType.WORD)
                             and offset_token.value == "continue"
                         ):
-                            offset = StringLiteral(token=offset_token, value="continue")
+                            offset = Continue(token=offset_token)
                         else:
                             offset = parse_primitive(env, offset_token)
                     case _:
